@@ -41,6 +41,8 @@ def run_dir(tag):
 def goenv():
     e = dict(os.environ)
     e.update(GOENV)
+    if os.environ.get("VERIF_COVERDIR"):
+        e["GOCOVERDIR"] = os.environ["VERIF_COVERDIR"]
     return e
 
 
@@ -62,7 +64,11 @@ def build_harness(race=False):
         open(alt, "w").write(gm)
         shutil.copy(os.path.join(HARNESS_SRC, "go.sum"), alt[:-4] + ".sum")
         modfile = ["-modfile=" + alt]
-    cmd = ["go", "build"] + modfile + ["-tags", "verif"] + (["-race"] if race else []) + ["-o", out, "."]
+    cover = []
+    if os.environ.get("VERIF_COVERDIR"):
+        # development aid: statement coverage of the library by the conformance runs (GOCOVERDIR = VERIF_COVERDIR)
+        cover = ["-cover", "-coverpkg=github.com/veraison/psatoken,github.com/veraison/psatoken/encoding"]
+    cmd = ["go", "build"] + modfile + ["-tags", "verif"] + (["-race"] if race else []) + cover + ["-o", out, "."]
     t0 = time.time()
     p = subprocess.run(cmd, cwd=HARNESS_SRC, env=goenv(), capture_output=True, text=True)
     if p.returncode != 0:
